@@ -81,58 +81,89 @@ func checkC15(p *Prog, r *Report) {
 	r.Uncovered("byte-level output for concrete trees; names for which filepath.Clean is not the identity; duplicate names (unstable sort); last.Name being the cleaned previous name in prefix decompression; an independent protocol-27 implementation is not available in the sandbox and could not be run by a static check anyway")
 }
 
-// checkSameCopies: stores to File.{ModTime,Mode,Uid,Gid,Rdev} in the decoder
-// are either wire values (flag clear) or the same field of `last` (flag set);
-// ReceiveFileList advances lastFileEntry to the entry just decoded.
+// checkSameCopies: for every flag/option/type assignment the decoder fills
+// File.{ModTime,Mode,Uid,Gid,Rdev} from the previous entry exactly when the
+// corresponding XMIT_SAME_x flag is set, and from the wire otherwise
+// (walked with phi-choice tracking, helpers in line); ReceiveFileList
+// advances lastFileEntry to the entry just decoded.
 func checkSameCopies(p *Prog, r *Report, dec *ssa.Function) {
 	rule := "C15/W2-DECODER-TABLE"
+	w := &wireExtractor{p: p, dec: dec, optFld: map[string]string{"PreserveUid": "uid", "PreserveGid": "gid", "PreserveDevices": "devices", "PreserveSpecials": "specials", "PreserveLinks": "links", "AlwaysChecksum": "checksum"}}
 	last := dec.Params[2]
-	flagsP := dec.Params[1]
-	for _, fld := range []struct{ name, flag string }{{"ModTime", "SAME_TIME"}, {"Mode", "SAME_MODE"}, {"Uid", "SAME_UID"}, {"Gid", "SAME_GID"}, {"Rdev", "SAME_RDEV"}} {
-		fv := p.Field(pkgReceiver, "File", fld.name)
-		var bit int64
-		for _, x := range xmitFlags {
-			if x.name == fld.flag {
-				bit = x.bit
+	fields := []struct{ name, flag, opt string }{{"ModTime", "SAME_TIME", ""}, {"Mode", "SAME_MODE", ""}, {"Uid", "SAME_UID", "uid"}, {"Gid", "SAME_GID", "gid"}, {"Rdev", "SAME_RDEV", "rdev"}}
+	fvars := map[*types.Var]string{}
+	for _, f := range fields {
+		if fv := p.Field(pkgReceiver, "File", f.name); fv != nil {
+			fvars[fv] = f.name
+		}
+	}
+	bad := map[string]string{}
+	seen := map[string]int{}
+	for _, a := range allAssignments(true) {
+		var sim *Sim
+		sim = &Sim{Fn: dec, TrackChoices: true, Inline: w.inlineHelpers, Completed: func(ret *ssa.Return) bool {
+			rr := retResults(ret)
+			return isNilConst(rr[len(rr)-1])
+		}}
+		sim.Atom = w.decAtom(a, sim.C)
+		sim.Record = func(in ssa.Instruction) string {
+			st, ok := in.(*ssa.Store)
+			if !ok {
+				return ""
+			}
+			_, f := fieldOfAddr(st.Addr)
+			name, tracked := fvars[f]
+			if !tracked {
+				return ""
+			}
+			v := sim.Resolve(st.Val)
+			// time.Unix(int64(x), 0) wraps the wire value for ModTime
+			if c, isC := v.(*ssa.Call); isC && calleeName(c) == "time.Unix" {
+				v = sim.Resolve(c.Common().Args[0])
+			}
+			if base, lf := loadedField(v); lf == f && sim.Resolve(base) == ssa.Value(last) {
+				return name + "=prev"
+			}
+			if rc, idx := extractOf(v); rc != nil && idx == 0 && strings.HasSuffix(calleeName(rc), ".Conn).ReadInt32") {
+				return name + "=wire"
+			}
+			return name + "=?"
+		}
+		seqs := sim.Run()
+		isDev := a.typ == "CHR" || a.typ == "BLK"
+		isSpecial := a.typ == "FIFO" || a.typ == "SOCK"
+		var want []string
+		for _, f := range fields {
+			applies := true
+			switch f.opt {
+			case "uid", "gid":
+				applies = a.opts[f.opt]
+			case "rdev":
+				applies = (a.opts["devices"] && isDev) || (a.opts["specials"] && isSpecial)
+			}
+			if !applies {
+				continue
+			}
+			if a.flags[f.flag] {
+				want = append(want, f.name+"=prev")
+			} else {
+				want = append(want, f.name+"=wire")
 			}
 		}
-		flagSet := func(v ssa.Value) bool {
-			bo, ok := v.(*ssa.BinOp)
-			if !ok || bo.Op != token.NEQ {
-				return false
-			}
-			and, ok := bo.X.(*ssa.BinOp)
-			if !ok || and.Op != token.AND || and.X != ssa.Value(flagsP) {
-				return false
-			}
-			k, ok := constInt(and.Y)
-			return ok && k == bit
+		ws := strings.Join(want, " ")
+		for _, f := range fields {
+			seen[f.name]++
 		}
-		nCopy, nWire, bad := 0, 0, ""
-		for _, b := range dec.Blocks {
-			for _, in := range b.Instrs {
-				st, ok := in.(*ssa.Store)
-				if !ok {
-					continue
-				}
-				if _, f := fieldOfAddr(st.Addr); f != fv {
-					continue
-				}
-				base, lf := loadedField(st.Val)
-				if lf == fv && base == ssa.Value(last) {
-					nCopy++
-					if !HasFact(st, true, flagSet) {
-						bad = "copy from the previous entry not under " + fld.flag
-					}
-					continue
-				}
-				nWire++
-				if !HasFact(st, false, flagSet) {
-					bad = "wire value stored while " + fld.flag + " may be set"
+		if len(seqs) != 1 || seqs[0] != ws {
+			for _, f := range fields {
+				if _, have := bad[f.name]; !have && (len(seqs) != 1 || !sameFieldVerdict(seqs[0], ws, f.name)) {
+					bad[f.name] = fmt.Sprintf("%s: decoder does %q, expected %q", a.String(), seqs, ws)
 				}
 			}
 		}
-		r.Cond(bad == "" && nCopy == 1 && nWire >= 1, rule, "decoder "+fld.flag+" copies "+fld.name+" from previous entry", p.Pos(dec.Pos()), bad+fmt.Sprintf(" (copies=%d wire=%d)", nCopy, nWire))
+	}
+	for _, f := range fields {
+		r.Cond(bad[f.name] == "", rule, "decoder "+f.flag+" copies "+f.name+" from previous entry", p.Pos(dec.Pos()), bad[f.name])
 	}
 	rfl := anchorFunc(p, r, pkgReceiver, "Transfer", "ReceiveFileList")
 	if rfl != nil {
@@ -152,6 +183,19 @@ func checkSameCopies(p *Prog, r *Report, dec *ssa.Function) {
 		})
 		r.Cond(ok, rule, "ReceiveFileList advances the previous entry", p.Pos(rfl.Pos()), "the `last` argument must be the entry decoded in the previous iteration")
 	}
+}
+
+// sameFieldVerdict: do two record strings agree on field `name`?
+func sameFieldVerdict(got, want, name string) bool {
+	pick := func(s string) string {
+		for _, f := range strings.Fields(s) {
+			if strings.HasPrefix(f, name+"=") {
+				return f
+			}
+		}
+		return ""
+	}
+	return pick(got) == pick(want)
 }
 
 func checkConstants(p *Prog, r *Report) {
@@ -228,9 +272,10 @@ func checkLongintSiblings(p *Prog, r *Report) {
 			continue
 		}
 		data := fn.Params[1]
+		var pe *PathEnum
 		atom := func(cond ssa.Value) (string, bool, bool) {
 			bo, ok := cond.(*ssa.BinOp)
-			if !ok || bo.X != ssa.Value(data) {
+			if !ok || pe.C(bo.X) != ssa.Value(data) {
 				return "", false, false
 			}
 			k, isK := constInt(bo.Y)
@@ -244,7 +289,8 @@ func checkLongintSiblings(p *Prog, r *Report) {
 			}
 			return "", false, false
 		}
-		pe := &PathEnum{Atom: atom, IgnoreUnknown: true, BackEdge: "loop",
+		pe = &PathEnum{Atom: atom, IgnoreUnknown: true, BackEdge: "loop",
+			Inline: func(f *ssa.Function) bool { return f.Name() != "WriteInt32" && f.Name() != "WriteInt64" },
 			Event: func(in ssa.Instruction) string {
 				c, ok := in.(ssa.CallInstruction)
 				if !ok {
@@ -256,13 +302,13 @@ func checkLongintSiblings(p *Prog, r *Report) {
 					if k, isK := constInt(a); isK && k == -1 {
 						return "i32(-1)"
 					}
-					if cv, isCv := a.(*ssa.Convert); isCv && cv.X == ssa.Value(data) {
+					if cv, isCv := a.(*ssa.Convert); isCv && pe.C(cv.X) == ssa.Value(data) {
 						return "i32(v)"
 					}
 					return "i32(?)"
 				}
 				if n == "encoding/binary.Write" {
-					if mi, ok := c.Common().Args[2].(*ssa.MakeInterface); ok && mi.X == ssa.Value(data) {
+					if mi, ok := c.Common().Args[2].(*ssa.MakeInterface); ok && pe.C(mi.X) == ssa.Value(data) {
 						return "i64(v)"
 					}
 					return "bin(?)"
